@@ -51,6 +51,17 @@ func (b *c17Buf) Reset() {
 	b.mu.Unlock()
 }
 
+// c17Fail reports at most a handful of failures per signature, so that every signature that occurs is
+// among the failures the check gets to see.
+var c17FailN = map[string]int{}
+
+func c17Fail(out *vlib.Out, sig, what, replay string) {
+	c17FailN[sig]++
+	if c17FailN[sig] <= 6 {
+		out.OracleFail(sig, what, replay)
+	}
+}
+
 // ---------------------------------------------------------------------------------------------
 // (A) generalizeErr
 
@@ -64,7 +75,7 @@ func c17GenCase(out *vlib.Out, n *vc17.Node, all [][]string) {
 		out.Checked()
 		for _, needles := range all {
 			if hit := vc17.Scan(g.Error(), needles); hit != "" {
-				out.OracleFail("C17:generalizeErr-passes-address",
+				c17Fail(out, "C17:generalizeErr-passes-address",
 					fmt.Sprintf("generalizeErr (proxies.go) returned %q for %q: endpoint %s is still in the text", g.Error(), err.Error(), hit),
 					"gen|0|"+n.Enc())
 				break
@@ -220,7 +231,7 @@ func c17RelayAll(out *vlib.Out, glob *c17Buf) {
 					out.Checked()
 					out.Count("relay:" + pos)
 					if hit := vc17.Scan(logged, cl.Needles); hit != "" {
-						out.OracleFail("C17:relay-log-has-client-address",
+						c17Fail(out, "C17:relay-log-has-client-address",
 							fmt.Sprintf("%s client, %s, error %q injected at %s: the log / tunnel summary contains %s: %s",
 								cl.Name, map[bool]string{true: "upload", false: "download"}[up], n.Go().Error(), pos, hit, c17Clip(logged, hit)),
 							fmt.Sprintf("relay|%s|%s|%s|%s", cl.Name, vlib.B(up), pos, n.Enc()))
@@ -333,13 +344,13 @@ func c17ProxyAll(out *vlib.Out, glob *c17Buf) {
 			out.Checked()
 			out.Count("proxy:" + in.pos)
 			if hit := vc17.Scan(logged, cl.Needles); hit != "" {
-				out.OracleFail("C17:relay-log-has-client-address",
+				c17Fail(out, "C17:relay-log-has-client-address",
 					fmt.Sprintf("Proxy, %s client, error %q injected at %s (PROXY header %v): the log / tunnel summary contains %s: %s",
 						cl.Name, e.Error(), in.pos, header, hit, c17Clip(logged, hit)),
 					fmt.Sprintf("proxy|%s|%s|%s|%s", cl.Name, in.pos, vlib.B(header), in.n.Enc()))
 			}
 			if !strings.Contains(logged, "proxy closed ") {
-				out.OracleFail("C17:no-tunnel-summary", "Proxy printed no tunnel summary", fmt.Sprintf("proxy|%s|%s", cl.Name, in.pos))
+				c17Fail(out, "C17:no-tunnel-summary", "Proxy printed no tunnel summary", fmt.Sprintf("proxy|%s|%s", cl.Name, in.pos))
 			}
 		}
 	}
@@ -423,7 +434,7 @@ func c17Ingest(out *vlib.Out) {
 							d := reg.String()
 							out.Checked()
 							if hit := vc17.Scan(d, cl.Needles); hit != "" {
-								out.OracleFail("C17:digest-has-registrant-address", "DecoyRegistration.String() contains the registrant: "+c17Clip(d, hit),
+								c17Fail(out, "C17:digest-has-registrant-address", "DecoyRegistration.String() contains the registrant: "+c17Clip(d, hit),
 									fmt.Sprintf("ingest|%s|%s", cl.Name, name))
 							}
 						}
@@ -448,7 +459,7 @@ func c17Ingest(out *vlib.Out) {
 			out.Checked()
 			if level == log.ErrorLevel {
 				if hit := vc17.Scan(logged, cl.Needles); hit != "" {
-					out.OracleFail("C17:ingest-log-has-registrant-address",
+					c17Fail(out, "C17:ingest-log-has-registrant-address",
 						fmt.Sprintf("%s registrant, default log level: the registration manager's log contains %s: %s", cl.Name, hit, c17Clip(logged, hit)),
 						fmt.Sprintf("ingest|%s|default-level", cl.Name))
 				}
@@ -461,14 +472,14 @@ func c17Ingest(out *vlib.Out) {
 					if strings.Contains(line, key) {
 						seen[key] = true
 						if hit := vc17.Scan(line, cl.Needles); hit != "" {
-							out.OracleFail("C17:digest-has-registrant-address", "a digest / expiry line contains the registrant: "+c17Clip(line, hit),
+							c17Fail(out, "C17:digest-has-registrant-address", "a digest / expiry line contains the registrant: "+c17Clip(line, hit),
 								fmt.Sprintf("ingest|%s|trace-level", cl.Name))
 						}
 					}
 				}
 			}
 			if !seen["New registration:"] || !seen["expired reg "] {
-				out.OracleFail("C17:harness-ingest-incomplete", fmt.Sprintf("digest / expiry lines were not produced (%v)", seen), "ingest|"+cl.Name)
+				c17Fail(out, "C17:harness-ingest-incomplete", fmt.Sprintf("digest / expiry lines were not produced (%v)", seen), "ingest|"+cl.Name)
 			}
 		}
 	}
@@ -483,6 +494,7 @@ func TestVerifC17Lib(t *testing.T) {
 	getProxyStats()
 	out := vlib.Open("C17")
 	defer out.Close()
+	out.Note("C17 lib: error trees through generalizeErr (proxies.go); injected errors at every I/O call of halfPipe/Proxy; registrations through ingestRegistration; log output scanned for client addresses in every textual form")
 	if rp := vlib.Replay(); rp != "" {
 		c17LibReplay(t, out, rp, &glob)
 		return
